@@ -356,10 +356,11 @@ func (t *sseClientTransport) handleResponse(data string) {
 	// Get the response ID as a string.
 	idStr := requestIDKey(response.ID)
 
-	// Find the corresponding response channel.
+	// Find the corresponding response channel. The read lock is held until the response has been handed
+	// over: close() closes the channels under the write lock, and a send on a closed channel panics.
 	t.responsesMu.RLock()
+	defer t.responsesMu.RUnlock()
 	responseChan, ok := t.responses[idStr]
-	t.responsesMu.RUnlock()
 
 	if !ok {
 		if t.logger != nil {
@@ -371,7 +372,7 @@ func (t *sseClientTransport) handleResponse(data string) {
 	// Parse the raw message.
 	rawMsg := json.RawMessage(data)
 
-	// Send the response on the channel.
+	// Send the response on the channel (never blocks: the channel is buffered and the send has a default).
 	select {
 	case responseChan <- &rawMsg:
 		// Response sent successfully.
